@@ -85,16 +85,22 @@ def real_evt_seq(S, calls, labels, via=None):
             arg = [labels[i] if i < S else ('zz%d' % i if isinstance(labels[0], str) else S + i) for i in c]
         else:
             arg = list(c)
+        before = [list(map(int, e)) for e in x.event_adapt]
         try:
             if via and known and c:
                 x.adapt(fset.loc[arg] if via == 'loc' else fset.iloc[list(c)])
             elif len(arg) == 1 and not labels:
-                x.adapt(arg[0])
+                x.adapt(np.int64(arg[0]) if (c[0] % 2 and known) else arg[0])          # NumPy integers are scenario numbers too
             else:
                 x.adapt(arg)
             res.append({"ok": [list(map(int, e)) for e in x.event_adapt]})
         except Exception as e:
-            res.append({"err": type(e).__name__}); break
+            res.append({"err": type(e).__name__})
+            after = [list(map(int, e_)) for e_ in x.event_adapt]
+            if after != before:
+                # a rejected declaration must leave the events as they were
+                res[-1] = {"err": type(e).__name__, "events_changed_by_rejected_call": {"before": before, "after": after}}
+            break
     return res
 
 
@@ -168,6 +174,9 @@ def classify_disagreement(ctx, comp, case, code, out):
     if comp == 'DecVar.evtadapt':
         cr, mr = code['results'], out.get('results', [])
         for a, b in zip(cr, mr):
+            if 'events_changed_by_rejected_call' in a:
+                ctx.hit('rejected-declaration-changed-the-events', a['events_changed_by_rejected_call'], case)
+                break
             if a != b:
                 if 'ok' in a and 'err' in b:
                     ctx.hit('evtadapt-accepts-illegal', {"code": a, "model": b}, case)
@@ -313,11 +322,14 @@ def real_ldr_seq(r):
     from rsome import ro
     m = ro.Model()
     size = int(r.integers(1, 4)); nz = int(r.integers(1, 4))
-    z = m.rvar(nz)
+    foreign = bool(r.random() < 0.4)
+    # the random variables may be declared in two steps, the second one after the first adapt() calls
+    split = (not foreign) and nz >= 2 and bool(r.random() < 0.4)
+    n1 = int(r.integers(1, nz)) if split else nz
+    z = m.rvar(n1); z2 = None
     y = m.ldr(size)
     calls = []; results = []
     used = False; after_use_ok = False
-    foreign = bool(r.random() < 0.4)
     if foreign:
         # a set that needs auxiliary columns in the shared support model is formulated BEFORE the dependencies are declared:
         # the declared (entry, component) pairs must not shift
@@ -334,12 +346,21 @@ def real_ldr_seq(r):
             used = True
             continue
         di = sorted(set(int(v) for v in r.choice(size, int(r.integers(1, size + 1)), replace=False)))
-        ri = sorted(set(int(v) for v in r.choice(nz, int(r.integers(1, nz + 1)), replace=False)))
+        if split:
+            blk = int(r.integers(0, 2))
+            if blk == 1 and z2 is None:
+                z2 = m.rvar(nz - n1)                 # declared after earlier adapt() calls (if any)
+            lo_, hi_ = (0, n1) if blk == 0 else (n1, nz)
+            ri = sorted(set(int(v) for v in lo_ + r.choice(hi_ - lo_, int(r.integers(1, hi_ - lo_ + 1)), replace=False)))
+            zobj = z[ri] if blk == 0 else z2[[j - n1 for j in ri]]
+        else:
+            ri = sorted(set(int(v) for v in r.choice(nz, int(r.integers(1, nz + 1)), replace=False)))
+            zobj = z[ri]
         try:
             if len(di) == size and r.random() < 0.5:
-                y.adapt(z[ri])
+                y.adapt(zobj)
             else:
-                y[di].adapt(z[ri])
+                y[di].adapt(zobj)
             results.append('ok')
             calls.append({"dec": di, "rand": ri})
             after_use_ok = after_use_ok or used
@@ -353,7 +374,11 @@ def real_ldr_seq(r):
         extra = 'SyntaxError'
     else:
         calls_model = calls; results_cmp = results; extra = None
+    if split and z2 is None:
+        z2 = m.rvar(nz - n1)
     mask = np.zeros((size, nz), int) if y.depend is None else np.asarray(y.depend)
+    if mask.shape[1] < nz:
+        mask = np.hstack([mask, np.zeros((size, nz - mask.shape[1]), int)])      # components declared after the last adapt()
     # the compiled rule must carry exactly the declared (entry, component) pairs - also when random variables are declared
     # between adapt() and the first use of the rule
     struct = None
@@ -377,6 +402,7 @@ def real_ldr_seq(r):
         mask = mask[:, :nz]
     code = {"results": results_cmp, "mask": mask.tolist()}
     case = {"size": size, "nz": nz, "calls": calls, "used_before_last": used, "last_error": extra, "norm_set_formulated_first": foreign,
+            "random_variables_declared_in_two_steps": [n1, nz - n1] if split else None,
             "structure_problem": struct}
     if after_use_ok:
         code["results"] = results_cmp + ['accepted-after-use']      # never equal to the model's reply
